@@ -154,11 +154,20 @@ def coq_events(events, order=None) -> str:
 # ---------------------------------------------------------------------------------------------
 
 class Recorder:
-    def __init__(self, h):
+    def __init__(self, h, index=0):
         self.h = h
+        self.index = index
 
     async def on_transfer_state_changed(self, transfer, old, new):
-        self.h.on_edge(old.name, new.name)
+        self.h.on_edge(old.name, new.name, self.index)
+
+
+class SlowListener(Recorder):
+    """a listener that needs time (UI, database): it suspends, the harness decides when it finishes"""
+
+    async def on_transfer_state_changed(self, transfer, old, new):
+        self.h.on_edge(old.name, new.name, self.index)
+        await self.h.slow('listener')
 
 
 class FakeAsyncOs:
@@ -208,7 +217,8 @@ def make_gated_lock(h):
 
 
 class Harness:
-    def __init__(self, tmpdir: str, state: str, direction: str, cfg: dict, gate: bool = True, transfer=None, with_manager=False):
+    def __init__(self, tmpdir: str, state: str, direction: str, cfg: dict, gate: bool = True, transfer=None, with_manager=False,
+                 slow_listener=False):
         from aioslsk.transfer.model import Transfer, TransferDirection
         from aioslsk.transfer.state import TransferState
         import aioslsk.transfer.state as state_mod
@@ -217,7 +227,7 @@ class Harness:
         self.gate = gate
         self.wake_pending = False
         self.waited = set()
-        self.pending = None          # (kind, future) the lock holder is suspended on
+        self.pending = []            # [(kind, future)] suspended slow operations (at most one while the lock discipline holds)
         self.events_log = []         # observations since the last take()
         self.violations = []         # monitor: effects outside the lock etc.
         self.task_of = {}            # asyncio task -> call index
@@ -269,7 +279,13 @@ class Harness:
             self.manager = make_manager()
             self.manager._transfers.append(t)
             t.state_listeners.append(self.manager)
-        t.state_listeners.append(Recorder(self))
+        if slow_listener:
+            # a slow listener first, then two ordinary ones: every listener must be told the same documented edges
+            t.state_listeners.append(SlowListener(self, 0))
+            t.state_listeners.append(Recorder(self, 1))
+            t.state_listeners.append(Recorder(self, 2))
+        else:
+            t.state_listeners.append(Recorder(self))
         self.settle()
 
     async def _slow_task(self, cleanup):
@@ -286,15 +302,16 @@ class Harness:
             if self.lock.owner is not me:
                 self.violations.append(('lock-not-held', what, self.task_of.get(me)))
 
-    def on_edge(self, old, new):
-        self._check_owner(f'transition {old}->{new}')
+    def on_edge(self, old, new, listener=0):
+        # (no lock-owner check here: WHEN listeners are told is not the property, WHAT they are told is)
         me = asyncio.current_task()
-        self.events_log.append(('E', old, new, self.task_of.get(me), me in self.waited))
+        self.events_log.append(('E', old, new, self.task_of.get(me), me in self.waited, listener))
 
     async def slow(self, kind):
-        self._check_owner(kind)
+        if kind != 'listener':
+            self._check_owner(kind)
         fut = self.loop.create_future()
-        self.pending = (kind, fut)
+        self.pending.append((kind, fut))
         await fut
 
     def take(self):
@@ -367,9 +384,8 @@ class Harness:
         self.task_of[task] = j
         self.tasks[j] = task
 
-    def step(self):
-        kind, fut = self.pending
-        self.pending = None
+    def step(self, newest=False):
+        kind, fut = self.pending.pop(-1 if newest else 0)
         fut.set_result(None)
         self.settle()
 
@@ -385,10 +401,10 @@ class Harness:
         self.settle()
 
     def enabled_step(self):
-        return self.pending is not None or self.cancel_wait()
+        return bool(self.pending) or self.cancel_wait()
 
     def do_step(self):
-        if self.pending is not None:
+        if self.pending:
             self.step()
         else:
             self.step_cancel()
@@ -427,10 +443,10 @@ def make_manager(cache=None):
     return TransferManager(settings, bus, um, AsyncMock(), network, cache=cache)
 
 
-def run_schedule(tmpdir, state, direction, cfg, calls, events, gate=True):
+def run_schedule(tmpdir, state, direction, cfg, calls, events, gate=True, slow_listener=False):
     """Run one schedule on the real code.  Returns dict(per_event=[...obs...], final=snapshot, done=bool,
     enabled=..., violations=[...])"""
-    h = Harness(tmpdir, state, direction, cfg, gate=gate)
+    h = Harness(tmpdir, state, direction, cfg, gate=gate, slow_listener=slow_listener)
     try:
         return drive(h, calls, events)
     finally:
@@ -450,6 +466,8 @@ def drive(h: Harness, calls, events):
             h.start(e[1])
         elif e[0] == 'T':
             h.do_step()
+        elif e[0] == 'U':      # two operations are suspended at once (impossible while the lock discipline holds): resume the later one
+            h.step(newest=True)
         elif e[0] == 'W':
             h.wake()
         obs = h.take()
@@ -473,6 +491,8 @@ def enabled_events(h: Harness, calls, rank, started):
             en.append(('S', j))
     if h.enabled_step():
         en.append(('T',))
+    if len(h.pending) >= 2:
+        en.append(('U',))
     if h.wake_pending:
         en.append(('W',))
     return en
